@@ -67,6 +67,33 @@ def f_odp_space_count(n):
     return "odp", data, u
 
 
+def f_odt_table_cell_repeated(n):
+    data, u = _odf("odt", f'<office:text><table:table table:name="t"><table:table-column/><table:table-row><table:table-cell table:number-columns-repeated="{n}" office:value-type="string"><text:p>x</text:p></table:table-cell>'
+                   f'</table:table-row><table:table-row table:number-rows-repeated="{n}"><table:table-cell office:value-type="string"><text:p>y</text:p></table:table-cell></table:table-row></table:table><text:p>z</text:p></office:text>')
+    return "odt", data, u
+
+
+def f_odp_table_cell_repeated(n):
+    data, u = _odf("odp", f'<office:presentation><draw:page draw:name="p"><draw:frame svg:x="1cm" svg:y="1cm"><table:table><table:table-column/><table:table-row><table:table-cell table:number-columns-repeated="{n}"><text:p>x</text:p></table:table-cell>'
+                   f'</table:table-row><table:table-row table:number-rows-repeated="{n}"><table:table-cell><text:p>y</text:p></table:table-cell></table:table-row></table:table></draw:frame></draw:page></office:presentation>')
+    return "odp", data, u
+
+
+def f_html_colspan(n):
+    d = f'<html><body><table><tr><td colspan="{n}" rowspan="{n}">x</td><td>y</td></tr><tr><td>z</td></tr></table></body></html>'.encode()
+    return "html", d, len(d)
+
+
+def f_docx_gridspan(n):
+    from vlib.gen import ooxml
+    W = ooxml.W
+    doc = (f'<?xml version="1.0"?><w:document xmlns:w="{W}"><w:body><w:tbl><w:tblGrid><w:gridCol w:w="{n}"/></w:tblGrid><w:tr><w:tc><w:tcPr><w:gridSpan w:val="{n}"/><w:vMerge w:val="restart"/></w:tcPr>'
+           f'<w:p><w:r><w:t>x</w:t></w:r></w:p></w:tc></w:tr></w:tbl><w:p><w:r><w:t>y</w:t></w:r></w:p></w:body></w:document>').encode()
+    parts = {"[Content_Types].xml": ooxml._ct(ooxml.IMG_DEFAULTS, {"/word/document.xml": "application/vnd.openxmlformats-officedocument.wordprocessingml.document.main+xml"}),
+             "_rels/.rels": ooxml._rels([("rId1", ooxml.REL_T + "officeDocument", "word/document.xml", None)]), "word/document.xml": doc}
+    return "docx", ooxml._zip(parts), sum(len(v) for v in parts.values())
+
+
 def f_xlsx_declared_dimension(n):
     from vlib.gen import ooxml
     S, R_NS, REL_T = ooxml.S, ooxml.R_NS, ooxml.REL_T
@@ -204,6 +231,10 @@ FAMILIES = {
     "ods-columns-repeated-empty": (f_ods_empty_cols_repeated, [250_000, 500_000, 1_000_000, 2_000_000], "count"),
     "odt-space-count": (f_odt_space_count, [25_000_000, 50_000_000, 100_000_000, 200_000_000], "count"),
     "odp-space-count": (f_odp_space_count, [25_000_000, 50_000_000, 100_000_000, 200_000_000], "count"),
+    "odt-table-cell-and-row-repeated": (f_odt_table_cell_repeated, [500_000, 1_000_000, 2_000_000, 4_000_000], "count"),
+    "odp-table-cell-and-row-repeated": (f_odp_table_cell_repeated, [500_000, 1_000_000, 2_000_000, 4_000_000], "count"),
+    "html-colspan-rowspan": (f_html_colspan, [500_000, 1_000_000, 2_000_000, 4_000_000], "count"),
+    "docx-gridspan": (f_docx_gridspan, [500_000, 1_000_000, 2_000_000, 4_000_000], "count"),
     "xlsx-declared-dimension": (f_xlsx_declared_dimension, [100, 200, 400, 800], "count"),
     "docx-deep-nested-tables": (f_docx_deep_tables, [20, 40, 80, 160], "size"),
     "docx-entity-expansion": (f_docx_entity_bomb, [4, 6, 8, 10], "count"),
@@ -307,6 +338,9 @@ def work_limit(case):
         big = case["member_size"]
         tok = b"qo00001z "
         members = [{"name": "small.txt", "data": b"qa00001z small\n"}, {"name": "big.txt", "data": tok + b"0" * (big - len(tok))}, {"name": "after.txt", "data": b"qa00002z after\n"}]
+        if case.get("hardlink"):
+            # a hard-link entry (its own size field is 0) with a supported extension pointing at the oversize member
+            members.insert(2, {"name": "data/copy.html", "type": "hardlink", "link": "big.txt"})
         data = archives.build(case["layout"], members)
         tmp = tempfile.mkdtemp(prefix="verif-c12-")
         os.environ["TMPDIR"] = tmp
@@ -365,6 +399,8 @@ def main(run):
     for layout in ("zip-deflated", "tar.gz", "7z-lzma-solid", "7z-lzma-per-file"):
         limits.append({"part": "limit", "which": "member-limit", "layout": layout, "member_size": 10 * MIB + 1, "label": f"{layout} member of 10MiB+1", "expect": "skipped"})
         limits.append({"part": "limit", "which": "member-limit", "layout": layout, "member_size": 10 * MIB, "label": f"{layout} member of 10MiB", "expect": "extracted"})
+    for layout in ("tar", "tar.gz"):
+        limits.append({"part": "limit", "which": "member-limit", "layout": layout, "member_size": 10 * MIB + 1, "hardlink": True, "label": f"{layout} hard link to a member of 10MiB+1", "expect": "skipped"})
     series = {}
     for case, ob in pool.run_cases("checks.c12:work", cases + limits, deadline_s=300, rlimit_as=3 * 2**30, fresh_worker_per_case=True):
         rep = {"case": case}
